@@ -37,7 +37,7 @@ func c18ShapeMutants() []core.Mutant {
 		c18Seed("index-loop-step-2", c18SrcLoop, c18ShapeIndexLoop, "for i := 0; i < len(polyConditions); i++ {", "for i := 0; i < len(polyConditions); i += 2 {", "L3", "area absent"),
 		c18Seed("index-loop-other-entry", c18SrcLoop, c18ShapeIndexLoop, "c := polyConditions[i]", "c := polyConditions[len(polyConditions)-1-i]", "L3", "skip"),
 		c18Seed("closure-blacklist-and-listed", c18SrcLoop, c18ShapeIndexLoop, "c.Condition == conditionBlacklist && !listed()", "c.Condition == conditionBlacklist && listed()", "L3", "branch blacklist"),
-		c18Seed("tuple-helper-area-empty-true", c18SrcWayPolygon, c18ShapeNamedResultTuples, "\t\treturn false, false\n", "\t\treturn true, false\n", "L3", "area absent"),
+		c18Seed("tuple-helper-area-empty-true", c18SrcWayPolygon, c18ShapeNamedResultTuples, "\t\treturn false, false\n", "\t\treturn true, false\n", "L3", "branch all"),
 		c18Seed("table-method-loop-depends-on-node-count", c18SrcPolygonToTable, c18ShapeTableTypeMethods, "\treturn polyConditions.match(w.Tags)\n", "\tif n := len(w.Nodes); n > 3 {\n\t\tfor _, c := range polyConditions {\n\t\t\tif n == 4 && w.Tags.Find(c.Key) != \"\" {\n\t\t\t\treturn true\n\t\t\t}\n\t\t}\n\t}\n\treturn false\n", "L3", "skip"),
 		c18Seed("table-method-sorts-copy-of-table", c18SrcPolygonToTable, c18ShapeTableTypeMethods, "\tfor i := range l {\n\t\tsort.Strings(l[i].Values)\n\t}\n", "\tl = append(polyConditionList(nil), l...)\n\tfor i := range l {\n\t\tl[i].Values = append([]string(nil), l[i].Values...)\n\t\tsort.Strings(l[i].Values)\n\t}\n", "L2", "sorted@"),
 		c18Seed("alias-entry-written", whole, c18ShapeAlias, "\t\tvals := c.Values\n", "\t\tvals := c.Values\n\t\tc.Values = vals[:len(vals):len(vals)]\n\t\tc.Condition = conditionAll\n", "L2", "immutable@"),
